@@ -91,6 +91,11 @@ func init() {
 			e.cut("harness:" + e.vsymName(a[0]))
 			return nil
 		},
+		// vsymKnownClear(tag): obligations from here on no longer belong to the known-finding class tag
+		"vsymKnownClear": func(e *Exec, c *frame, fn *ssa.Function, a []Value) Value {
+			delete(e.known, e.vsymName(a[0]))
+			return nil
+		},
 		// vsymKnown(tag, cond): from here on, violations on this path under cond belong to known-finding class tag
 		"vsymKnown": func(e *Exec, c *frame, fn *ssa.Function, a []Value) Value {
 			tag := e.vsymName(a[0])
